@@ -43,7 +43,10 @@ type ChangelogEntry struct {
 	When      time.Time
 }
 
-const whenLayout = time.RFC1123Z // "Mon, 02 Jan 2006 15:04:05 -0700"
+// RFC1123Z with a day of the month of one or two digits, as Policy 4.4 writes
+// the trailer date ("day-of-week, dd month yyyy hh:mm:ss +zzzz", dd being "a
+// one- or two-digit day of the month").
+const whenLayout = "Mon, 2 Jan 2006 15:04:05 -0700"
 
 type ChangelogEntries []ChangelogEntry
 
